@@ -1134,6 +1134,7 @@ func (w *Workspace) structuralC11Frames() *FuncResult {
 				fmt.Sprintf("the handler of %s in x/%s has no verified contract: nothing is proved about what this message may change", n, mod)))
 		}
 	}
+	res.Obls = append(res.Obls, w.handlerInvocations()...)
 	for _, tb := range c11Tables {
 		kp := w.ssaPkgs[modPath+"/x/"+tb.Mod+"/keeper"]
 		if kp == nil {
@@ -1276,6 +1277,90 @@ func (w *Workspace) structuralC11Frames() *FuncResult {
 		}
 	}
 	return res
+}
+
+// handlerInvocations: a message handler runs a message on behalf of its Creator without looking at who asked for it --
+// the signature check sits in front of it (A-ANTE). So a handler may be invoked only by the module's own dispatchers,
+// which pass on the messages of a signed transaction unchanged (NewHandler in x/<mod>/handler.go, the generated
+// _Msg_*_Handler functions of types/tx.pb.go), or by a function under a verified C11 contract, which has to establish
+// by other means that the message is the caller's own (wasmbinding.PerformPostFile does). One obligation per
+// invoking function outside the dispatchers, so that the set of invokers is part of the evidence.
+func (w *Workspace) handlerInvocations() []*Obligation {
+	isHandlerCall := func(c *ssa.CallCommon) (string, bool) {
+		if c.IsInvoke() {
+			if n, ok := c.Value.Type().(*types.Named); ok && n.Obj().Name() == "MsgServer" && n.Obj().Pkg() != nil {
+				for _, mod := range append(append([]string{}, customModules...), "jklmint") {
+					if n.Obj().Pkg().Path() == modPath+"/x/"+mod+"/types" {
+						return "x/" + mod + " " + c.Method.Name(), true
+					}
+				}
+			}
+			return "", false
+		}
+		if fn := c.StaticCallee(); fn != nil && fn.Signature.Recv() != nil && fn.Pkg != nil && isRepoPkg(fn.Pkg.Pkg) {
+			t := fn.Signature.Recv().Type()
+			if pt, ok := t.(*types.Pointer); ok {
+				t = pt.Elem()
+			}
+			if n, ok := t.(*types.Named); ok && n.Obj().Name() == "msgServer" && ast.IsExported(fn.Name()) {
+				return strings.TrimPrefix(fn.Pkg.Pkg.Path(), modPath+"/") + " " + fn.Name(), true
+			}
+		}
+		return "", false
+	}
+	type inv struct {
+		fn    *ssa.Function
+		calls []string
+	}
+	byFn := map[string]*inv{}
+	for key, fn := range w.funcs {
+		if len(fn.Blocks) == 0 {
+			continue
+		}
+		file := w.prog.Fset.Position(fn.Pos()).Filename
+		if strings.HasSuffix(file, "_test.go") {
+			continue
+		}
+		base := filepath.Base(file)
+		if base == "handler.go" || base == "tx.pb.go" {
+			continue
+		}
+		for _, b := range fn.Blocks {
+			for _, in := range b.Instrs {
+				ci, ok := in.(ssa.CallInstruction)
+				if !ok {
+					continue
+				}
+				if what, ok := isHandlerCall(ci.Common()); ok {
+					if byFn[key] == nil {
+						byFn[key] = &inv{fn: fn}
+					}
+					byFn[key].calls = append(byFn[key].calls, what)
+				}
+			}
+		}
+	}
+	var keys []string
+	for k := range byFn {
+		keys = append(keys, k)
+	}
+	sort.Strings(keys)
+	var out []*Obligation
+	for _, k := range keys {
+		top := byFn[k].fn
+		for top.Parent() != nil {
+			top = top.Parent()
+		}
+		ck := k
+		if top != byFn[k].fn && top.Pkg != nil {
+			ck = top.Pkg.Pkg.Path() + "::" + relName(top)
+		}
+		ct := w.contracts[ck]
+		ok := ct != nil && !ct.Trusted && contractServes(ct, "C11")
+		out = append(out, structural(strings.TrimPrefix(strings.Replace(k, "::", ".", 1), modPath+"/"), "invokes_a_message_handler_under_a_C11_contract", []string{"C11"}, ok,
+			fmt.Sprintf("%s runs the message handler(s) %s outside the signed-transaction dispatchers and has no verified C11 contract: nothing shows that the message it runs is its caller's own", k, strings.Join(byFn[k].calls, ", "))))
+	}
+	return out
 }
 
 func sortedKeys(m map[string]string) []string {
